@@ -65,6 +65,133 @@ def deref(x):
     return ('deref', x)
 
 
+def _mentions_local(x, locals_):
+    """does the JSON term mention a place rooted at one of the locals?"""
+    if isinstance(x, dict):
+        return any(_mentions_local(v, locals_) for k, v in x.items() if k in ('s', 't'))
+    if isinstance(x, list):
+        if len(x) == 2 and isinstance(x[0], int) and not isinstance(x[0], bool) and isinstance(x[1], list) and x[0] in locals_:
+            return True
+        return any(_mentions_local(y, locals_) for y in x)
+    return False
+
+
+def _mentions_bare(x, aliases):
+    """does the JSON term x use one of the alias locals as a whole operand (mv/cp with empty projection)?"""
+    if isinstance(x, list):
+        if len(x) == 2 and x[0] in ('mv', 'cp') and isinstance(x[1], list) and len(x[1]) == 2 \
+                and isinstance(x[1][0], int) and x[1][0] in aliases and not x[1][1]:
+            return True
+        return any(_mentions_bare(y, aliases) for y in x)
+    return False
+
+
+def writes_summary(db, callee, pidx, _stack=()):
+    """fields of `*param pidx` (a `&mut T` parameter of the local function `callee`) that the function may write,
+    transitively through the local functions it hands the reference to; None = anything.
+    A field counts as written when it is assigned, mutably borrowed, dropped or its address taken."""
+    cache = db.__dict__.setdefault('_write_summ', {})
+    key = (callee, pidx)
+    if key in cache:
+        return cache[key]
+    if key in _stack or len(_stack) > 8:
+        return None
+    b = db.body(callee)
+    if b is None or b.kind not in ('fn', 'assocfn') or pidx > b.argc:
+        cache[key] = None
+        return None
+    aliases = {pidx}
+    changed = True
+    while changed:
+        changed = False
+        for blk in b.blocks:
+            for st in blk['s']:
+                if st[0] != '=' or st[1][1] or st[1][0] == 0 or st[1][0] in aliases:
+                    continue
+                rv = st[2]
+                if rv[0] == 'use' and rv[1][0] in ('mv', 'cp') and rv[1][1][0] in aliases and not rv[1][1][1]:
+                    aliases.add(st[1][0]); changed = True
+                elif rv[0] == 'ref' and rv[2][0] in aliases and rv[2][1] == ['*']:
+                    aliases.add(st[1][0]); changed = True
+    out = set()
+    def place_write(pl):
+        """a write/borrow of place pl rooted at an alias: returns False when it is not confined to one field"""
+        if pl[0] not in aliases:
+            return True
+        pr = pl[1]
+        if len(pr) >= 2 and pr[0] == '*' and isinstance(pr[1], str) and pr[1].startswith('.'):
+            out.add(pr[1]); return True
+        return False
+    ok = True
+    for blk in b.blocks:
+        for st in blk['s']:
+            if st[0] == '=':
+                d, rv = st[1], st[2]
+                if d[0] in aliases and not d[1]:
+                    # (re)definition of an alias local: fine when it is one of the alias-creating forms
+                    if rv[0] == 'use' and _mentions_bare(rv, aliases):
+                        continue
+                    if rv[0] == 'ref' and rv[2][0] in aliases and rv[2][1] == ['*']:
+                        continue
+                    if d[0] == pidx:
+                        ok = False
+                    continue
+                if not place_write(d):
+                    ok = False
+                if rv[0] == 'ref' and rv[2][0] in aliases:
+                    if rv[1] == 'mut' and not place_write(rv[2]):
+                        ok = False
+                elif rv[0] == 'rawptr' and rv[1][0] in aliases:
+                    if not place_write(rv[1]):
+                        ok = False
+                elif _mentions_bare(rv, aliases):
+                    ok = False      # the reference itself escapes into a value
+            elif st[0] == 'setdiscr':
+                if not place_write(st[1]):
+                    ok = False
+        t = blk['t']
+        if t[0] == 'call':
+            if not place_write(t[3]):
+                ok = False
+            f = t[1]
+            for i, a in enumerate(t[2]):
+                if _mentions_bare(a, aliases):
+                    sub = writes_summary(db, strip_generics(f[1]), i + 1, _stack + (key,)) if f[0] == 'fn' else None
+                    if sub is None:
+                        ok = False
+                    else:
+                        out |= sub
+            if f[0] != 'fn' and _mentions_bare(f, aliases):
+                ok = False
+        elif t[0] == 'drop':
+            if not place_write(t[1]):
+                ok = False
+        elif t[0] in ('yield',):
+            ok = False
+        if not ok:
+            break
+    res = out if ok else None
+    cache[key] = res
+    return res
+
+
+class Variants(list):
+    """variant names of an enum in declaration order + the map from discriminant value to name"""
+    def __init__(self, names, discrs):
+        super().__init__(names)
+        if discrs is None or any(d is None for d in discrs):
+            self.by_discr = {str(i): n for i, n in enumerate(names)}
+        else:
+            self.by_discr = {str(d): n for d, n in zip(discrs, names)}
+
+    def get(self, v):
+        return self.by_discr.get(str(v))
+
+    def others(self, excluded):
+        ex = {str(v) for v in excluded}
+        return [n for d, n in self.by_discr.items() if d not in ex]
+
+
 class Facts:
     def __init__(self, db, body):
         self.db = db; self.b = body
@@ -224,12 +351,14 @@ class Facts:
 
     # ------------------------------------------------------------ edge literals
     def variants_of(self, ty):
+        """variant names in declaration order; `.get(d)` maps a SwitchInt value (the discriminant, which differs
+        from the declaration index for enums with explicit discriminants) to the name"""
         h = ty_head(ty)
         if h in BUILTIN_VARIANTS:
-            return BUILTIN_VARIANTS[h]
+            return Variants(BUILTIN_VARIANTS[h], None)
         adt = self.db.adts.get(h)
         if adt and adt['kind'] == 'enum':
-            return [v['name'] for v in adt['variants']]
+            return Variants([v['name'] for v in adt['variants']], [v.get('discr') for v in adt['variants']])
         return None
 
     def _truth(self, e, val):
@@ -324,17 +453,16 @@ class Facts:
                 return out
             if names:
                 if label[0] == 'val':
-                    i = int(label[1])
-                    if i < len(names):
-                        return lits_for(names[i], True)
-                    return []
-                rest = [n for i, n in enumerate(names) if str(i) not in label[1]]
+                    n = names.get(label[1])
+                    return lits_for(n, True) if n is not None else []
+                rest = names.others(label[1])
                 if len(rest) == 1:
                     return lits_for(rest[0], True)
                 out = []
                 for v in label[1]:
-                    if int(v) < len(names):
-                        out.extend(lits_for(names[int(v)], False))
+                    n = names.get(v)
+                    if n is not None:
+                        out.extend(lits_for(n, False))
                 return out
             return []
         # integer switch
@@ -421,7 +549,8 @@ class Facts:
                         out.append((bi, si))
                     rv = st[2]
                     if not assign_only and rv[0] == 'ref' and rv[1] == 'mut' and rv[2][0] == root and overlaps(rv[2][1]):
-                        out.append((bi, si))
+                        if not self._borrow_spares(bi, si, st, proj):
+                            out.append((bi, si))
                     if not assign_only and rv[0] == 'rawptr' and rv[1][0] == root and overlaps(rv[1][1]):
                         out.append((bi, si))
                 elif st[0] == 'setdiscr' and st[1][0] == root and overlaps(st[1][1]):
@@ -433,11 +562,50 @@ class Facts:
                 # moving a `&mut` root into a call hands out mutable access
                 for a in t[2]:
                     if not assign_only and a[0] == 'mv' and a[1][0] == root and not a[1][1] and self.b.locals[root].startswith('&mut') and proj[:1] == ('*',):
-                        out.append((bi, len(blk['s'])))
+                        if not self._call_spares(t, root, proj[1:]):
+                            out.append((bi, len(blk['s'])))
             elif t[0] == 'drop':
                 if t[1][0] == root and overlaps(t[1][1]):
                     out.append((bi, len(blk['s'])))
         return out
+
+    def _call_spares(self, t, ref_local, rest):
+        """the call terminator t receives the `&mut` local ref_local; `rest` is the projection (below the deref) of
+        the place a fact is about.  True when the callee is a local function that provably never writes that field."""
+        if t[1][0] != 'fn' or not rest or not (isinstance(rest[0], str) and rest[0].startswith('.')):
+            return False
+        idxs = [i for i, a in enumerate(t[2]) if a[0] == 'mv' and a[1][0] == ref_local and not a[1][1]]
+        if len(idxs) != 1:
+            return False
+        summ = writes_summary(self.db, strip_generics(t[1][1]), idxs[0] + 1)
+        return summ is not None and rest[0] not in summ
+
+    def _borrow_spares(self, bi, si, st, proj):
+        """`_t = &mut <prefix of the fact's place>` that only prepares an argument of the block's own call to a local
+        function which never writes the field the fact is about"""
+        if st[1][1]:
+            return False
+        tl = st[1][0]
+        p2 = tuple(st[2][2][1])
+        if len(p2) >= len(proj) or proj[:len(p2)] != p2:
+            return False
+        t = self.b.term(bi)
+        if t[0] != 'call' or si not in self.own_arg_setup(bi):
+            return False
+        # the temporary (or its two-phase reborrow) is used nowhere but in this block's call
+        chain = {tl}
+        for st2 in self.b.stmts(bi)[si + 1:]:
+            if st2[0] == '=' and not st2[1][1] and st2[2][0] == 'ref' and st2[2][2][0] in chain and st2[2][2][1] == ['*']:
+                chain.add(st2[1][0])
+        for bj, blk in enumerate(self.b.blocks):
+            if bj == bi:
+                continue
+            if _mentions_local(blk, chain):
+                return False
+        moved = [a[1][0] for a in t[2] if a[0] == 'mv' and not a[1][1] and a[1][0] in chain]
+        if len(moved) != 1:
+            return False
+        return self._call_spares(t, moved[0], proj[len(p2):])
 
     def own_arg_setup(self, bb):
         """statement indexes of block bb that only prepare the arguments of bb's own call terminator
